@@ -26,6 +26,16 @@ Proof.
   intros H. bool_hyps. apply N.eqb_eq in H. subst. reflexivity.
 Qed.
 
+Lemma cast_irrelevant a b w k le :
+  orb (Nat.eqb a b) (andb (Nat.leb w a) (Nat.leb w b)) = true ->
+  enc_int w le (N.of_nat k mod pow256 a) = enc_int w le (N.of_nat k mod pow256 b).
+Proof.
+  intros H. apply orb_prop in H. destruct H as [H|H].
+  - apply Nat.eqb_eq in H. subst. reflexivity.
+  - apply andb_prop in H. destruct H as [Ha Hb]. apply Nat.leb_le in Ha. apply Nat.leb_le in Hb.
+    rewrite !enc_int_mod by assumption. reflexivity.
+Qed.
+
 Section Ext.
   Variable cs : string -> option (list byte -> N).
   Variables rec1 rec2 : string -> value -> list byte -> option (list byte).
@@ -104,9 +114,11 @@ Section Ext.
       rewrite Ei, Ej. cbn [enc_step].
       destruct (lookup_mark (st_marks st) _); [|reflexivity].
       destruct (lookup_mark (st_spans st) _); [|reflexivity].
+      match goal with Hc : orb _ _ = true |- _ => rename Hc into Hcast end.
       repeat match goal with Hs : slice_ok ?sl _ = true |- _ =>
         destruct sl; cbn [slice_ok] in Hs; [rewrite Hs|]; clear Hs end;
-      match goal with Ho : order_eqb _ _ _ = true |- _ => rewrite (order_eqb_enc _ _ _ _ Ho) end; reflexivity.
+      match goal with Ho : order_eqb _ _ _ = true |- _ => rewrite (order_eqb_enc _ _ _ _ Ho) end;
+      match goal with |- context [N.of_nat ?k mod pow256 _] => rewrite (cast_irrelevant _ _ _ k _ Hcast) end; reflexivity.
     - (* ECheck *)
       bool_hyps. destruct (nth_error vs j) as [v|]; [|reflexivity]. cbn [enc_step].
       destruct v; try reflexivity.
